@@ -51,6 +51,8 @@ def check(ctx):
     repo = ctx.repo
     docs = require_labels(EULER_LABELS)
     ctx.note("specification", {k: v[:200] for k, v in docs.items()})
+    ctx.rule("R02.10", "every psi solve of an update is handed the inputs of *this* step: the step index, the psi / mu of the previous solve of the same "
+                       "update (or the ones handed in), |psi^n|^2 of the psi handed in, and the epsilon of this time (re-evaluated when time dependent)", 1)
     ctx.rule("R02.9", "the dt with which the accepted psi solve ran is the dt that is returned, recorded and added to the clock (shared with C12 R12.3/R12.4)", 5)
     ctx.rule("R02.8", "the psi update never writes into the arrays it is handed: a refused attempt leaves psi^n, |psi^n|^2 and mu^n as they were for the retry", 1)
     ctx.rule("R02.7", "z and w are computed from the psi, |psi|^2 and mu of *this* call: update() keeps no hidden numerical state "
@@ -117,6 +119,7 @@ def check(ctx):
                             "advanced) with another dt: with the reported dt the update equation does not hold")
     c12.retry_loop(sh)
     c12.step_reported(sh, repo.func("tdgl.solver.solver", "TDGLSolver.update"))
+    step_inputs(ctx)
     from ..effects import input_purity
     input_purity(ctx, "R02.8", functions=("TDGLSolver.solve_for_psi_squared", "TDGLSolver.adaptive_euler_step"), min_functions=2,
                  consequence="a refused attempt has already modified psi^n in place: the retry (with a smaller dt) solves the update equation "
@@ -201,3 +204,48 @@ def check_refusals(ctx, f, decided):
                consequence="psi ~ 1e-160 (|psi|^2 = 1e-320 underflows): the update returns None although the root exists; "
                            "the caller exhausts its retries and aborts the run",
                witness={"input": "psi=[1e-160], abs_sq_psi=[1e-320], mu=0, epsilon=1, gamma=10, u=5.79, dt=1e-3"})
+
+
+def step_inputs(ctx):
+    """R02.10 on the traces of update() (pvs/update_trace.py): what each adaptive_euler_step call is handed."""
+    from ..update_trace import all_traces
+    from ..smallstep import render
+    repo = ctx.repo
+    fu = repo.func("tdgl.solver.solver", "TDGLSolver.update")
+    bad = []
+    n = 0
+    for t in all_traces(repo):
+        sc = t.scenario
+        tag = ", ".join(f"{k}={v}" for k, v in sc.items() if k != "max_iterations")
+        want_eps = "eps_new" if sc["dynamic_epsilon"] else "self.epsilon"
+        for k, ev in enumerate(t.calls("adaptive_euler_step")):
+            n += 1
+            a = [render(x) for x in ev.args]
+            if len(a) < 6:
+                raise AnalysisError(f"adaptive_euler_step is called with {len(a)} positional arguments in the model")
+            step_, psi_, sq_, mu_, eps_ = a[0], a[1], a[2], a[3], a[4]
+            want_psi = "psi" if k == 0 else f"psi#{k - 1}"
+            want_mu = "mu" if k == 0 else f"mu#{k - 1}"
+            probs = []
+            if psi_ != want_psi:
+                probs.append(f"psi = {psi_} (expected {want_psi})")
+            if mu_ != want_mu:
+                probs.append(f"mu = {mu_} (expected {want_mu})")
+            if eps_ != want_eps:
+                probs.append(f"epsilon = {eps_} (expected {want_eps})")
+            if "absolute(psi)" not in sq_ or "#" in sq_:
+                probs.append(f"|psi^n|^2 = {sq_[:50]} (expected |psi handed in|^2)")
+            if step_ not in ("5", "20"):
+                probs.append(f"step = {step_}")
+            if probs:
+                bad.append(f"[{tag}] solve #{k}: " + "; ".join(probs))
+        if t.outcome[0] == "return" and sc["dynamic_epsilon"]:
+            res = [render(x) for x in t.outcome[1].parts[2]] if getattr(t.outcome[1], "parts", None) else []
+            if "eps_new" not in res:
+                bad.append(f"[{tag}] the epsilon of this step is not among the returned state ({res})")
+    if n < 100:
+        raise AnalysisError(f"only {n} psi solves in the traces of update()")
+    ctx.ob("R02.10", "each psi solve is handed the step, psi, mu, |psi^n|^2 and epsilon of this step", not bad, detail=bad[:4], where=fu.fq,
+           construct="inputs of the psi solve", loc=loc(fu, fu.node), message=f"{bad[:2]}",
+           consequence="psi' + z|psi'|^2 = w is solved with z, w built from the epsilon (or psi, mu) of another step: with a time-dependent "
+                       "disorder parameter every update uses epsilon(r, 0) instead of epsilon(r, t^n)")
